@@ -97,7 +97,7 @@ def main(argv: list[str] | None = None) -> int:
     records = orchestrator.run_cases(
         modname, cases, workers=workers,
         case_timeout=getattr(module, "CASE_TIMEOUT", 180.0),
-        quiescence_after=getattr(module, "QUIESCENCE_AFTER", None),
+        quiescence_after=getattr(module, "QUIESCENCE_AFTER", 45.0),
         env_extra=getattr(module, "ENV", None),
         rss_limit=getattr(module, "MEMORY_LIMIT", None))
     if hasattr(module, "finalize"):
@@ -136,10 +136,18 @@ def main(argv: list[str] | None = None) -> int:
                 violations.append({"key": key, "msg": record["error"][-1500:], "detail": None, "case": case})
             else:
                 inconclusive.append(f"case {case.get('n')}: harness error\n{record['error'][-1500:]}")
+        elif record.get("skipped"):
+            outcome_counts["skipped_after_repeated_hangs"] += 1
         elif record.get("timeout"):
             outcome_counts["timeout"] += 1
             handler = getattr(module, "on_timeout", None)
             verdict = handler(case, record) if handler else None
+            if handler is None and record.get("diag", {}).get("verdict") == "quiescent":
+                # every workload is expected to terminate: a worker whose threads are all asleep, use no
+                # CPU and make no context switches is blocked for ever inside the code under test
+                verdict = {"violation": "blocked-forever",
+                           "msg": f"no result after {record.get('elapsed', 0):.0f}s and the worker is quiescent; stacks:\n"
+                                  f"{record.get('diag', {}).get('stacks', '')[-1500:]}"}
             if verdict and verdict.get("violation"):
                 violations.append({"key": verdict["violation"], "msg": verdict.get("msg", ""),
                                    "detail": {"diag": record.get("diag")}, "case": case})
@@ -196,6 +204,8 @@ def main(argv: list[str] | None = None) -> int:
             print(f"  key={key} ({len(group)} case(s)): {first['msg'][:600]}")
             exit_code = 1
 
+    if outcome_counts.get("skipped_after_repeated_hangs") and not reported:
+        inconclusive.append(f"{outcome_counts['skipped_after_repeated_hangs']} cases were skipped after repeated watchdog firings")
     if exit_code == 0 and inconclusive:
         print(f"INCONCLUSIVE property={prop}: {len(inconclusive)} undecided item(s)")
         for item in inconclusive[:8]:
